@@ -14,10 +14,35 @@ ASSUMPTIONS = []
 nontrivial = c01.nontrivial
 
 
+def interleaved_port_cases():
+    """A child whose ports, in NAME order (the order QREF keeps them in), interleave directions -- anc (input), ctrl (through),
+    data (input): every pattern of directions over three ports a < b < c, fully wired to ports of the root."""
+    import itertools
+
+    import exprs as E
+    cases = []
+    for dirs in itertools.product(["input", "output", "through"], repeat=3):
+        ports, rports, conns = [], [], []
+        for nm, d in zip("abc", dirs):
+            ports.append({"name": nm, "direction": d, "size": None if d == "input" else (E.sym("N") if d == "through" else E.op("add", E.sym("N"), E.num(1)))})
+            if d in ("input", "through"):
+                rports.append({"name": f"i_{nm}", "direction": "input", "size": E.sym("N")})
+                conns.append([f"i_{nm}", f"k.{nm}"])
+            if d in ("output", "through"):
+                rports.append({"name": f"o_{nm}", "direction": "output", "size": None})
+                conns.append([f"k.{nm}", f"o_{nm}"])
+        kid = {"name": "k", "type": None, "input_params": ["N"], "local_variables": [], "linked_params": [], "ports": ports,
+               "resources": [{"name": "T", "type": "additive", "value": E.sym("N")}], "connections": [], "repetition": None, "children": []}
+        root = {"name": "root", "type": None, "input_params": ["N"], "local_variables": [], "linked_params": [["N", [["k", "N"]]]],
+                "ports": rports, "resources": [], "connections": conns, "repetition": None, "children": [kid]}
+        cases.append({"routine": root})
+    return cases
+
+
 def streams(tier, seed):
     rng = lib.Rng(f"C10-{seed}")
     n = 160 if tier == "quick" else 3000
-    cases = lib.load_corpus(PROP, "hier-compile") + c01.gen_cases(rng, n, 3 if tier == "quick" else 4)
+    cases = lib.load_corpus(PROP, "hier-compile") + interleaved_port_cases() + c01.gen_cases(rng, n, 3 if tier == "quick" else 4)
     # a third of the cases are compiled with derived resources named like resources of the hierarchy whose calculator
     # answers None ("not applicable") everywhere: the compiled hierarchy must be what it is without them
     import hier as H
